@@ -541,7 +541,7 @@ fn check_stability(kind: &str, n: usize, h: &[f64], h2: &[f64]) -> Option<String
     let mut v = make(kind, echo(), n);
     for &x in h { v.update(x); } for &x in h2 { w.update(x); }
     let mut first_gap = None;
-    for t in 0..long { let x = [1.0, -1.0, 0.5, 2.0, 0.0][t % 5]; v.update(x); w.update(x);
+    for t in 0..long { let x = if (t / 7) % 3 == 1 { 1.5 } else { [1.0, -1.0, 0.5, 2.0, 0.0, 0.0, 2.0][t % 7] }; v.update(x); w.update(x);
         if let (Some(p), Some(q)) = (v.last(), w.last()) { let g = (p - q).abs(); if first_gap.is_none() { first_gap = Some(g); }
             if t == long - 1 && g > 1e-6 + 1e-3 * first_gap.unwrap() { return Some(format!("outputs of two streams with a common tail of {long} values still differ by {g}")); } } }
     None
@@ -652,7 +652,8 @@ fn search(prop: &str, s: &mut Search) -> (usize, Option<Case>) {
             "C03" => { let kk = 2 * n + 3; let extra = s.rng.below(4) as usize; let suffix = gen_stream(&mut s.rng, kk + extra, false);
                 let l2 = 1 + s.rng.below(12) as usize; let mut p2 = gen_stream(&mut s.rng, l2, false); if s.rng.below(2) == 0 { p2.push(if residue_sensitive(k) { 64.0 } else { 1024.0 }); }
                 c.b = suffix.len() as f64; p2.extend(suffix.iter()); c.stream2 = p2; },
-            "C12" => { c.a = s.rng.pick(&[0.5, 2.0, 4.0, 0.25]); c.b = s.rng.pick(&[0.0, 1.0, -2.0, 8.0]); },
+            "C12" => { c.a = s.rng.pick(&[0.5, 2.0, 4.0, 0.25, 9.094947017729282e-13, 8.673617379884035e-19, 1099511627776.0]); c.b = s.rng.pick(&[0.0, 1.0, -2.0, 8.0]);
+                   if c.a < 1e-6 || c.a > 1e6 { c.b = 0.0; } },
             "C04x" => {},
             "C09" => { c.stream2 = gen_stream(&mut s.rng, len + 3, false); },
             "C10" => { c.stream2 = gen_stream(&mut s.rng, len, false); c.a = s.rng.pick(&[0.0, 1.0, -1.0, 2.0, 0.5]); c.b = s.rng.pick(&[0.0, 1.0, -2.0, 0.5]); },
